@@ -13,11 +13,11 @@
 (***************************************************************************)
 EXTENDS WatchdogImpl
 
-CInit == MaxRetx \in 0..1000 /\ MaxRounds \in 0..1000000 /\ Mode = "all" /\ Buffered = TRUE
+CInit == MaxRetx \in 0..1000 /\ MaxRounds \in 0..1000000 /\ Mode = "all" /\ Buffered = TRUE /\ WithWriteFailures \in BOOLEAN
 
 \* sensitivity: with the unbuffered channel the same invariant is NOT inductive (Apalache must find the
 \* lost acknowledgement)
-CInitUnbuffered == MaxRetx \in 0..1000 /\ MaxRounds \in 0..1000000 /\ Mode = "all" /\ Buffered = FALSE
+CInitUnbuffered == MaxRetx \in 0..1000 /\ MaxRounds \in 0..1000000 /\ Mode = "all" /\ Buffered = FALSE /\ WithWriteFailures = FALSE
 
 TypeOK == /\ wd \in {"sleep", "towrite", "written", "select", "exited"}
           /\ i \in 0..(MaxRetx + 1) /\ round \in 0..MaxRounds
